@@ -2073,6 +2073,8 @@ fn boundary_cases() -> Vec<(String, usize, String, String)> {
         // wave 4: the function is a call argument, gone when `x` is committed; the VM has a message for exactly this
         // (run_capture_value: "function not found while attempting to capture a value") but the register holds Null
         ("x = (1..10).find |n| n == x\nx\n", "error function_not_found_while_attempting_to_capture_a_value"),
+        // wave 5: the deferred Capture runs although the branch that creates the function was not taken
+        ("f = if false then (|n| f n) else 42\nf\n", "value i42"),
     ].iter().enumerate() {
         v.push(("deferred-self-capture".into(), k, prog.to_string(), exp.to_string()));
     }
@@ -2148,6 +2150,121 @@ fn jump_in_builder_grid() -> Vec<(String, String, String)> {
                     let a = mk(&lit_a, None);
                     let b = mk(&lit_b, Some(stmt));
                     v.push((format!("jump-in-builder:{}:{}:{}:{}", tn, hn, ln, ctx), a, b));
+                }
+            }
+        }
+    }
+    v
+}
+
+/// Register-stack discipline. Constructs that need CONSECUTIVE registers (list / tuple literals via SequencePushN, call
+/// arguments, temporary tuples, interpolations, nested ones) with an element — first, middle — that is a conditional with
+/// an early exit carrying a computed value in one branch (return / throw / break with value / break / continue), run with
+/// the exit taken and not taken; and with an element that is a block containing an UNUSED function literal with
+/// default arguments. Oracle: the same value as the REFERENCE (element = its plain value, the exit as a statement in
+/// front). A temporary that the compiler forgets to release inside the element shifts the later elements.
+/// (label, program, reference)
+fn register_discipline_grid() -> Vec<(String, String, String)> {
+    let containers: Vec<(&str, &str)> = vec![
+        ("list-first", "[@E, 3, 4]"), ("list-mid", "[1, @E, 4]"), ("tuple-first", "(@E, 3, 4)"), ("tuple-mid", "(1, @E, 4)"),
+        ("call-first", "g(@E, 3, 4)"), ("call-mid", "g(1, @E, 4)"), ("call-variadic", "h(@E, 3, 4)"), ("call-variadic-mid", "h(0, @E, 3, 4)"),
+        ("interp-first", "'{@E}-{3}-{4}'"), ("interp-mid", "'{1}-{@E}-{4}'"),
+        ("nested-list", "[0, [@E, 3], 4]"), ("call-list", "g(1, [@E, 2], (3, @E, 5))"), ("list-long", "[@E, 3, 4, 5, 6, 7, 8, 9, 10, 11, 12, 13]"),
+        ("map", "{a: @E, b: 3, c: 4}"), ("binary", "(@E) * 100 + g(1, 2, 3)[1]"), ("index", "[10, 20, 30, 40][@E] + (@E, 7)[1]"),
+    ];
+    // in a function: (name, element, exit statement)
+    let fn_exits: Vec<(&str, &str, &str)> = vec![
+        ("return-computed", "(if c then return a + 1 else 2)", "if c then return a + 1"),
+        ("return-computed-swapped", "(if not c then 2 else return a * 2)", "if c then return a * 2"),
+        ("return-list", "(if c then return [a, a + 1] else 2)", "if c then return [a, a + 1]"),
+        ("throw-computed", "(if c then throw 'e{a + 1}' else 2)", "if c then throw 'e{a + 1}'"),
+        ("return-call", "(if c then return g(a, a + 1, 2)[1] else 2)", "if c then return g(a, a + 1, 2)[1]"),
+    ];
+    let loop_exits: Vec<(&str, &str, &str)> = vec![
+        ("break-computed", "(if c then break a + 1 else 2)", "if c then break a + 1"),
+        ("break", "(if c then break else 2)", "if c then break"),
+        ("continue", "(if c and i == 1 then continue else 2)", "if c and i == 1 then continue"),
+        ("break-list", "(if c then break [a, a + 1] else 2)", "if c then break [a, a + 1]"),
+    ];
+    let pre = "g = |a, b, c| (a, b, c)\nh = |xs...| xs\n";
+    let mut v = vec![];
+    for (cn, cont) in &containers {
+        for (en, elem, stmt) in &fn_exits {
+            let mk = |lit: String, st: Option<&str>| format!(
+                "{}f = |c, a|\n{}  x = {}\n  (x, a)\nt = |c| try\n  f c, 5\ncatch e\n  'caught {{e}}'\n(t(false), t(true))\n",
+                pre, st.map(|s| format!("  {}\n", s)).unwrap_or_default(), lit);
+            v.push((format!("reg-discipline:{}:{}", cn, en), mk(cont.replace("@E", elem), None), mk(cont.replace("@E", "2"), Some(stmt))));
+        }
+        for (en, elem, stmt) in &loop_exits {
+            let mk = |lit: String, st: Option<&str>| format!(
+                "{}f = |c, a|\n  r = []\n  i = 0\n  z = loop\n    i += 1\n    if i > 3 then break 0\n{}    x = {}\n    r.push x\n  (r, z, i)\n(f(false, 5), f(true, 5))\n",
+                pre, st.map(|s| format!("    {}\n", s)).unwrap_or_default(), lit);
+            v.push((format!("reg-discipline:{}:{}", cn, en), mk(cont.replace("@E", elem), None), mk(cont.replace("@E", "2"), Some(stmt))));
+        }
+    }
+    // an unused function literal with default arguments inside an element (finding F-C05-17, fixed by 22cfce0)
+    for nd in 1..=3usize {
+        for computed in [false, true] {
+            let defaults: Vec<String> = (0..nd).map(|k| if computed { format!("d{} = q + {}", k, k) } else { format!("d{} = {}", k, 7 + k) }).collect();
+            let func = format!("|{}| d0", defaults.join(", "));
+            for (shape, open, close) in [("list", "[", "]"), ("tuple", "(", ")")] {
+                for pos in 0..2usize {
+                    let block = format!("  if true\n    {}\n    1\n  ,\n", func);
+                    let (a, b) = if pos == 0 { (format!("{}  2,\n  3\n", block), "1, 2, 3".to_string()) } else { (format!("  0,\n{}  2,\n  3\n", block), "0, 1, 2, 3".to_string()) };
+                    v.push((format!("reg-discipline:unused-fn-defaults:{}:{}:{}:{}", shape, nd, computed, pos),
+                        format!("q = 40\nx = {}\n{}{}\nx\n", open, a, close), format!("q = 40\nx = {}{}{}\nx\n", open, b, close)));
+                }
+            }
+            v.push((format!("reg-discipline:unused-fn-defaults:temp-tuple:{}:{}", nd, computed),
+                format!("q = 40\na, b = 1, if true\n  {}\n  2\n(a, b)\n", func), "a, b = 1, 2\n(a, b)\n".to_string()));
+            v.push((format!("reg-discipline:unused-fn-defaults:call:{}:{}", nd, computed),
+                format!("q = 40\ng = |a, b, c| (a, b, c)\ng (if true\n  {}\n  1\n), 2, 3\n", func), "g = |a, b, c| (a, b, c)\ng 1, 2, 3\n".to_string()));
+        }
+    }
+    v
+}
+
+/// Loops nested through literals: outer loop -> literal -> element that is an inner loop whose break / continue stays
+/// inside the literal (so the jump must NOT finish the outer literal's builder), two and three levels, for lists, tuples
+/// and interpolations; the innermost loop may again contain a literal with a jump. Reference: the inner loop evaluated
+/// into a local in front of the literal. (label, program, reference)
+fn nested_loop_literal_grid() -> Vec<(String, String, String)> {
+    let mut v = vec![];
+    let lits: Vec<(&str, &str, &str)> = vec![("list", "[i, ", ", 9]"), ("tuple", "(i, ", ", 9)"), ("interp", "'a{i}b{", "}c'"), ("list-first", "[", ", i]"), ("nested", "[i, (7, ", "), 9]")];
+    let inner_bodies: Vec<(&str, &str)> = vec![
+        ("break", "if j == 1 then break\nj\n"), ("continue", "if j == 1 then continue\nj\n"), ("break-value", "if j == 1 then break j + 10\nj\n"),
+        ("literal-continue", "w = [j, (if j == 1 then continue)]\nw\n"), ("literal-break", "w = (j, 'p{if j == 2 then break}q')\nw\n"),
+        ("unconditional-break", "break\n"),
+    ];
+    let heads: Vec<(&str, &str)> = vec![("for", "for j in 0..3"), ("while", "j = -1\n@while j < 2\n  j += 1"), ("loop", "j = -1\n@loop\n  j += 1\n  if j > 2 then break")];
+    for (ln, lo, lc) in &lits {
+        for (bn, body) in &inner_bodies {
+            for (hn, head) in &heads {
+                for levels in [2usize, 3] {
+                    if *hn != "for" {
+                        continue; // (an inner loop in expression position has no room for a counter statement: `for` only)
+                    }
+                    // inner loop as a parenthesised multi-line expression at indentation `ind`
+                    let inner = |ind: usize, body: &str| -> String {
+                        let pad = "  ".repeat(ind);
+                        let b: String = body.lines().map(|l| format!("{}  {}\n", pad, l)).collect();
+                        format!("(for j in 0..3\n{}{})", b, pad)
+                    };
+                    let _ = head;
+                    let (a, b);
+                    if levels == 2 {
+                        a = format!("r = []\nfor i in 0..3\n  v = {}{}{}\n  r.push v\nr\n", lo, inner(1, body), lc);
+                        let bb: String = body.lines().map(|l| format!("    {}\n", l)).collect();
+                        b = format!("r = []\nfor i in 0..3\n  t = for j in 0..3\n{}  v = {}t{}\n  r.push v\nr\n", bb, lo, lc);
+                    } else {
+                        // outer loop -> literal -> middle loop -> literal -> inner loop
+                        let mid_body_a = format!("u = [k, {}]\nu\n", inner(2, body).replace("\n", "\n"));
+                        let mb: String = mid_body_a.lines().map(|l| format!("    {}\n", l)).collect();
+                        a = format!("r = []\nfor i in 0..2\n  v = {}(for k in 0..2\n{}  ){}\n  r.push v\nr\n", lo, mb, lc);
+                        let bb: String = body.lines().map(|l| format!("      {}\n", l)).collect();
+                        b = format!("r = []\nfor i in 0..2\n  m = for k in 0..2\n    t = for j in 0..3\n{}    u = [k, t]\n    u\n  v = {}m{}\n  r.push v\nr\n", bb, lo, lc);
+                    }
+                    v.push((format!("nested-loop-literal:{}:{}:{}:{}", ln, bn, hn, levels), a, b));
                 }
             }
         }
@@ -2405,6 +2522,8 @@ fn behaviour_cases() -> Vec<(&'static str, String, String)> {
         ("F-C05-5(continue in interpolation, 2f5d1ea)", "out = []\nfor i in 0..4\n  s = \"a{i}b{if i < 2 then continue}c\"\n  out.push s\n'{out}'\n".into(), s("['a2bnullc', 'a3bnullc']")),
         ("F-C05-5(break in a nested literal of more than 64 elements, inside an outer literal, 2f5d1ea)",
             format!("y = [0, (for i in 0..3\n  x = [{}, (if i == 1 then break else 2)]\n), 5]\n'{{y}}'\n", (100..170).map(|k| k.to_string()).collect::<Vec<_>>().join(", ")), s("[0, null, 5]")),
+        ("F-C05-17(unused function literal with a default inside a list element, 22cfce0)", "x = [\n  if true\n    |d = 7| d\n    1\n  ,\n  2,\n  3\n]\n'{x}'\n".into(), s("[1, 2, 3]")),
+        ("F-C05-17(unused function literal with a default inside a temporary tuple, 22cfce0)", "a, b = 1, if true\n  |x = 7| x\n  2\n'{(a, b)}'\n".into(), s("(1, 2)")),
         ("F-C05-7(bare return nested in a block, aad4e1c)", "f = |c|\n  if c\n    return\ng = |c|\n  for i in 0..2\n    if c\n      return\n'{f false}{f true}{g false}'\n".into(), s("nullnullnull")),
     ]
 }
@@ -2667,7 +2786,10 @@ fn real_main() -> i32 {
     }
     cx.flush();
     // 4a'. break / continue inside literals and interpolations, against the reference with the jump as a statement
-    for (label, prog, reference) in jump_in_builder_grid() {
+    let mut grids = jump_in_builder_grid();
+    grids.extend(nested_loop_literal_grid());
+    grids.extend(register_discipline_grid());
+    for (label, prog, reference) in grids {
         cx.submit(&label, &prog, false);
         let mut ask = |p: &str| match cx.worker.request(&format!("v {}", kvh::hex(p.as_bytes())), Duration::from_secs(20)) {
             Reply::Ok(s) => s,
@@ -2678,17 +2800,17 @@ fn real_main() -> i32 {
         let want = ask(&reference);
         cx.rep.case(&label, true);
         if !want.starts_with("value ") {
-            cx.rep.violation("K", "C05:jump-in-builder:reference", json!({"case": label, "reference": reference, "observed": want,
+            cx.rep.violation("K", &format!("C05:{}:reference", label.split(':').next().unwrap_or("grid")), json!({"case": label, "reference": reference, "observed": want,
                 "note": "the reference program of the grid does not produce a value (harness defect)"}));
         } else if got == "compile-error" {
             // rejecting the program is not misbehaviour (`'{(break)}'`: "the compiled expression has no output")
-            cx.rep.bump("jump-in-builder=compile-error");
+            cx.rep.bump(&format!("{}=compile-error", label.split(':').next().unwrap_or("grid")));
         } else if got != want {
-            cx.rep.violation("D", "C05:jump-in-builder", json!({"case": label, "program": prog, "input_hex": kvh::hex(prog.as_bytes()),
+            cx.rep.violation("D", &format!("C05:{}", label.split(':').next().unwrap_or("grid")), json!({"case": label, "program": prog, "input_hex": kvh::hex(prog.as_bytes()),
                 "reference": reference, "expected": want, "observed": got,
-                "note": "break / continue inside a literal or interpolation behaves differently from the same jump in front of the literal"}));
+                "note": "the program behaves differently from its reference (the jump / early exit as a statement in front of the literal, the inner loop or element evaluated on its own)"}));
         } else {
-            cx.rep.bump("jump-in-builder=ok");
+            cx.rep.bump(&format!("{}=ok", label.split(':').next().unwrap_or("grid")));
         }
     }
     cx.flush();
